@@ -40,8 +40,8 @@ var realCommon = []string{"manager (service loop, jobs, views)", "builder + gopa
 var stubCommon = []string{"job scheduling and loop barriers (controller)", "wall clock (simrt.Now)", "tag event ticker", "map iteration order (seeded)", "runtime.NumCPU", "captured traffic (netsim)", "watch-directory ingestion, PCAP-over-IP sockets, webhooks, websocket fan-out: not exercised"}
 
 var checks = map[string]checkCfg{
-	"C05": {Engine: "bsim", Engine2: "mgrsim", QuickS: 25, ThoroughS: 900, Level: "exploration",
-		Rule:   "one case = one seeded capture (1-12 TCP/UDP v4/v6 conversations with known ground truth, path faults: segmentation, bounded reordering, retransmission, interleaving; 1-6 capture files cut at seeded packet positions; seeded chronological import batching; seeded snapshot interval). distinct = distinct hash of (conversation shapes, cuts, batching); non-trivial = more than one capture file or a conversation spanning files. Every third worker runs the mgrsim engine instead: the same kind of traffic is imported through the real service under a seeded schedule (merges, failing merges and imports, disk full, empty and garbage uploads, clean restarts) and every view is compared with a one-shot import of the captures reported processed",
+	"C05": {Engine: "bsim", Engine2: "mgrsim", Engine2Every: 2, QuickS: 35, ThoroughS: 900, Level: "exploration",
+		Rule:   "one case = one seeded capture (1-12 TCP/UDP v4/v6 conversations with known ground truth, path faults: segmentation, bounded reordering, retransmission, interleaving; 1-6 capture files cut at seeded packet positions; seeded chronological import batching; seeded snapshot interval). distinct = distinct hash of (conversation shapes, cuts, batching); non-trivial = more than one capture file or a conversation spanning files. Every second worker runs the mgrsim engine instead: the same kind of traffic is imported through the real service under a seeded schedule (merges, failing merges and imports, disk full, empty and garbage uploads, clean restarts) and every view is compared with a one-shot import of the captures reported processed",
 		Real:   []string{"builder.FromPcap", "gopacket reassembly", "udpreassembly", "libpcap (cgo) reading real pcap/pcapng files", "index writer/reader", "second engine: the whole manager (as in C10)"},
 		Stub:   []string{"network path and capture tap (netsim)", "wall clock", "map order", "second engine: job scheduling, clock, map order (controller)"},
 		Assume: []string{"netsim ground truth is what the endpoints exchanged", "well-formed traffic only: no capture loss, no conflicting overlaps, no IP fragments, handshake-complete TCP"}},
